@@ -110,6 +110,14 @@ def run_mux_case(case, judged):
             early_dut = csr.Multiplexer(mm, shadow_overlaps=layout["overlaps"])
         except ValueError:
             early_dut = None
+        bringup = early_dut is not None and rng.random() < 0.5
+        if bringup:
+            # bring-up: the multiplexer is elaborated (and the result thrown away) while its map is still growing
+            from amaranth.hdl import Fragment
+            try:
+                Fragment.get(Top({"bringup": early_dut}), None)
+            except ValueError:
+                pass
         _mm, more = build_map(layout, mm=mm, first=split)
         skipped_adds += more
     res = list(mm.resources())
